@@ -336,6 +336,10 @@ func simC03Sets(c *Ctx) {
 		o.Fam = 1 + c.G(10)
 		c.Probe("c03.true-collision-family")
 	}
+	if c.G(5) == 0 {
+		o.Long = []int{300, 600, 1100, 5000}[c.G(4)]
+		c.Probe("c03.long-twin-strings")
+	}
 	n := 4 + c.G(20)
 	if c.G(6) == 0 {
 		// large sets: sorting and bucket code changes behaviour with size (library sorts switch algorithm
